@@ -65,11 +65,51 @@ fn case_json(c: &Case) -> String {
 
 /// minimal JSON reader for the case files this program writes itself
 fn parse_case_file(text: &str) -> Option<Case> {
-    fn strings_after(text: &str, key: &str) -> Option<Vec<String>> {
-        let k = text.find(&format!("\"{}\":[", key))? + key.len() + 4;
-        let mut out = Vec::new();
+    // skip `"key"`, optional blanks, `:`, optional blanks; return the index after them
+    fn after_key(text: &str, key: &str) -> Option<usize> {
         let b = text.as_bytes();
-        let mut i = k;
+        let mut i = text.find(&format!("\"{}\"", key))? + key.len() + 2;
+        while i < b.len() && (b[i] == b' ' || b[i] == b'\n') {
+            i += 1;
+        }
+        if i >= b.len() || b[i] != b':' {
+            return None;
+        }
+        i += 1;
+        while i < b.len() && (b[i] == b' ' || b[i] == b'\n') {
+            i += 1;
+        }
+        Some(i)
+    }
+    fn read_string(b: &[u8], mut i: usize) -> Option<(String, usize)> {
+        if b.get(i) != Some(&b'"') {
+            return None;
+        }
+        i += 1;
+        let mut s = String::new();
+        while i < b.len() && b[i] != b'"' {
+            if b[i] == b'\\' && i + 1 < b.len() {
+                i += 1;
+                match b[i] {
+                    b'n' => s.push('\n'),
+                    b't' => s.push('\t'),
+                    c => s.push(c as char),
+                }
+            } else {
+                s.push(b[i] as char);
+            }
+            i += 1;
+        }
+        Some((s, i + 1))
+    }
+    fn strings_after(text: &str, key: &str) -> Option<Vec<String>> {
+        let b = text.as_bytes();
+        let mut i = after_key(text, key)?;
+        if b.get(i) != Some(&b'[') {
+            return None;
+        }
+        i += 1;
+        let mut out = Vec::new();
         loop {
             while i < b.len() && (b[i] == b',' || b[i] == b' ' || b[i] == b'\n') {
                 i += 1;
@@ -77,32 +117,14 @@ fn parse_case_file(text: &str) -> Option<Case> {
             if i >= b.len() || b[i] == b']' {
                 break;
             }
-            if b[i] != b'"' {
-                return None;
-            }
-            i += 1;
-            let mut s = String::new();
-            while i < b.len() && b[i] != b'"' {
-                if b[i] == b'\\' && i + 1 < b.len() {
-                    i += 1;
-                    match b[i] {
-                        b'n' => s.push('\n'),
-                        b't' => s.push('\t'),
-                        c => s.push(c as char),
-                    }
-                } else {
-                    s.push(b[i] as char);
-                }
-                i += 1;
-            }
-            i += 1;
+            let (s, j) = read_string(b, i)?;
             out.push(s);
+            i = j;
         }
         Some(out)
     }
-    let fam_k = text.find("\"family\":\"")? + 10;
-    let fam_e = text[fam_k..].find('"')? + fam_k;
-    let family: &'static str = Box::leak(text[fam_k..fam_e].to_string().into_boxed_str());
+    let (fam, _) = read_string(text.as_bytes(), after_key(text, "family")?)?;
+    let family: &'static str = Box::leak(fam.into_boxed_str());
     Some(Case { family, lines: strings_after(text, "lines")?, aux: strings_after(text, "aux").unwrap_or_default() })
 }
 
@@ -214,14 +236,14 @@ fn run_cases(
     Ok(())
 }
 
-fn run_one_case(prop: &str, case: &Case, model: &str) -> Result<Option<Failure>, String> {
+fn run_one_case(prop: &str, case: &Case, model: &mut model::ModelProc) -> Result<Option<Failure>, String> {
     let io: Vec<implrun::ImplOut> = case.lines.iter().map(|l| implrun::run(l)).collect();
-    let mo = model::run_batch(model, &case.lines)?;
+    let mo = model.ask(&case.lines)?;
     Ok(check_case(prop, case, &io, &mo))
 }
 
 /// delta-debugging over the byte-string tokens of the first line (cases without aux only)
-fn shrink(prop: &str, f: &Failure, model: &str) -> Failure {
+fn shrink(prop: &str, f: &Failure, model: &mut model::ModelProc) -> Failure {
     if !f.case.aux.is_empty() || f.case.lines.len() > 4 {
         return f.clone();
     }
@@ -307,6 +329,7 @@ fn cmd_run(args: &[String]) -> i32 {
     let _ = std::fs::create_dir_all(&outdir);
     let nw: usize = arg(args, "--workers").and_then(|s| s.parse().ok()).unwrap_or(16);
     let t0 = Instant::now();
+    let mut shrink_model = model::ModelProc::start(&model).ok();
 
     let workers: Vec<Arc<Worker>> = (0..nw).map(|_| Arc::new(Worker { started: AtomicU64::new(0) })).collect();
     // watchdog: a case running longer than 30 s is a hang
@@ -392,7 +415,10 @@ fn cmd_run(args: &[String]) -> i32 {
     }
     // choose the failure to report: an oracle failure beats a correspondence disagreement
     fails.sort_by_key(|f| (if f.kind == "oracle" { 0 } else { 1 }, f.case.lines.iter().map(|l| l.len()).sum::<usize>()));
-    let reported = fails.first().map(|f| shrink(prop, f, &model));
+    let reported = fails.first().map(|f| match shrink_model.as_mut() {
+        Some(m) => shrink(prop, f, m),
+        None => f.clone(),
+    });
     let map_json = |m: &BTreeMap<String, usize>| format!("{{{}}}", m.iter().map(|(k, v)| format!("{}:{}", json_str(k), v)).collect::<Vec<_>>().join(","));
     let hist_json = format!("{{{}}}", total.len_hist.iter().map(|(k, v)| format!("\"<={}\":{}", k, v)).collect::<Vec<_>>().join(","));
     let json = format!(
